@@ -18,12 +18,14 @@ EXTENDS BasicProg
 CONSTANT Limit         \* size of each memory pool (65535 in the real interpreter)
 
 ReadyText == <<82, 69, 65, 68, 89, 46, 10>>        \* "READY." LF
+MaxLine == 65529                                   \* the largest line number
 NoCont == Pos(PastEnd, <<0>>)
 LineUnspec == -9                                   \* error line the manual does not fix
 
 EmptyFn == [x \in {} |-> 0]
 
 InitM == [ lst   |-> EmptyFn,          \* listing: line number -> normalised statements
+           src   |-> EmptyFn,          \* listing: line number -> statements as entered (for LIST)
            dir   |-> <<>>,             \* the direct line being executed
            dgen  |-> 0,                \* how many direct lines have been entered
            pairs |-> {},               \* WHILE/WEND mates of the program
@@ -118,7 +120,8 @@ WithListing(m, lst) ==
 DataIndexOfLine(m, ln) == CountData(FlatProg(m.lst), 1, ln)
 
 \* an edit cancels the continuation and everything that points into the old program
-Edited(m, lst) == [WithListing(m, lst) EXCEPT !.cont = NoCont, !.contx = FALSE, !.ctl = <<>>, !.ctlx = FALSE,
+Edited(m, lst, src) == [WithListing(m, lst) EXCEPT !.src = src,
+                                              !.cont = NoCont, !.contx = FALSE, !.ctl = <<>>, !.ctlx = FALSE,
                                               !.stale = (m.stale \/ m.ctl # <<>> \/ m.ctlx)]
 
 \* ---- control transfer
@@ -435,20 +438,22 @@ Exec(m, p, s) ==
          ELSE [m EXCEPT !.pc = m.cont, !.cont = NoCont]
     [] s.k = "tron" -> [m EXCEPT !.tron = TRUE, !.ltr = p.ln, !.pc = Adv(p)]
     [] s.k = "troff" -> [m EXCEPT !.tron = FALSE, !.pc = Adv(p)]
-    [] s.k = "new" -> GoReady([Edited(Cleared(m), EmptyFn) EXCEPT !.tron = FALSE])
+    [] s.k = "new" -> GoReady([Edited(Cleared(m), EmptyFn, EmptyFn) EXCEPT !.tron = FALSE])
     [] s.k = "delete" ->
          \* DELETE a-b removes exactly the lines in the range; a bare DELETE is an error
          IF s.a = 0 /\ s.b = 65529 /\ s.bare THEN Fail(m, p, Err(EIllegalFn))
+         ELSE IF s.a > MaxLine \/ s.b > MaxLine \/ s.a > s.b THEN Fail(m, p, Err(AnyErr))
          ELSE LET keep == {n \in DOMAIN m.lst : n < s.a \/ n > s.b} IN
               IF keep = DOMAIN m.lst THEN GoReady(m)
-              ELSE GoReady(Edited(m, [n \in keep |-> m.lst[n]]))
+              ELSE GoReady(Edited(m, [n \in keep |-> m.lst[n]], [n \in keep |-> m.src[n]]))
+    [] s.k = "list" /\ (s.a > MaxLine \/ s.b > MaxLine \/ s.a > s.b) -> Fail(m, p, Err(AnyErr))
     [] s.k = "list" ->
          LET rng == {n \in DOMAIN m.lst : n >= s.a /\ n <= s.b}
              RECURSIVE Lst(_, _)
              Lst(mm, from) == LET c == {n \in rng : n >= from} IN
                               IF c = {} THEN mm
                               ELSE LET n == CHOOSE n \in c : \A y \in c : n <= y IN
-                                   Lst(Item(mm, [k |-> "list", ln |-> n]), n + 1)
+                                   Lst(Item(mm, [k |-> "list", ln |-> n, text |-> ShowLine(n, m.src[n])]), n + 1)
          IN  [Lst(m, 0) EXCEPT !.pc = Adv(p)]
     [] s.k = "cls" -> [Item(m, [k |-> "cls"]) EXCEPT !.pc = Adv(p)]
     [] OTHER -> OutOfModel(m, "statement")
@@ -483,11 +488,14 @@ RunToWait(m, fuel) ==
 \* a numbered line: insert / replace; an empty one deletes (no change if absent)
 EnterLine(m, n, stmts) ==
   LET m0 == [m EXCEPT !.resp = <<>>] IN
-  IF stmts = <<>> THEN
-    (IF n \in DOMAIN m.lst THEN Edited(m0, [x \in DOMAIN m.lst \ {n} |-> m.lst[x]])
+  \* a number above the limit is not a line number: the text is a (malformed) direct line
+  IF n > MaxLine THEN GoReady(Item(FreshLine(m0), [k |-> "err", errs |-> {[code |-> AnyErr, ln |-> -1]}]))
+  ELSE IF stmts = <<>> THEN
+    (IF n \in DOMAIN m.lst THEN Edited(m0, [x \in DOMAIN m.lst \ {n} |-> m.lst[x]], [x \in DOMAIN m.lst \ {n} |-> m.src[x]])
      ELSE [m0 EXCEPT !.cont = NoCont, !.contx = FALSE, !.ctl = <<>>, !.ctlx = FALSE,
                      !.stale = (m.stale \/ m.ctl # <<>> \/ m.ctlx)])
-  ELSE Edited(m0, [x \in DOMAIN m.lst \cup {n} |-> IF x = n THEN Norm(stmts) ELSE m.lst[x]])
+  ELSE Edited(m0, [x \in DOMAIN m.lst \cup {n} |-> IF x = n THEN Norm(stmts) ELSE m.lst[x]],
+                  [x \in DOMAIN m.lst \cup {n} |-> IF x = n THEN stmts ELSE m.src[x]])
 
 \* a direct line: analysed against the program's line numbers; with compile-time errors
 \* nothing of it executes
